@@ -55,6 +55,40 @@ Definition user_to_normalized1 (minv defv maxv : Z) (maps : option (list (Z * Z)
   do c <- normalize minv defv maxv user ;;
   Some (fixed_to_f2dot14 (match maps with Some m => avar_apply m c | None => c end)).
 
+(* read-fonts fvar.rs Fvar::user_to_normalized for all axes, avar absent or version 1.
+   axes: (tag, min, default, max) in fvar order (several axes may share a tag); maps: the avar SegmentMaps by axis index
+   (an avar table may hold fewer maps than there are axes); settings: (tag, user value) in the caller's order;
+   buf: the caller's output slice AS IT IS ON ENTRY (any length, any content).
+     normalized_coords.fill(0);  for each setting, for each axis i with that tag, if i < len: coords[i] = ...  *)
+Definition axis_rec := (Z * Z * Z * Z)%type.
+Definition map_for (maps : option (list (list (Z * Z)))) (i : nat) : option (list (Z * Z)) :=
+  match maps with Some ms => nth_error ms i | None => None end.
+Fixpoint set_at (n : nat) (x : Z) (l : list Z) : list Z :=          (* get_mut(i): no effect beyond the slice *)
+  match l, n with
+  | [], _ => []
+  | _ :: r, O => x :: r
+  | y :: r, S m => y :: set_at m x r
+  end.
+Fixpoint apply_setting (axes : list axis_rec) (maps : option (list (list (Z * Z)))) (i : nat) (tag v : Z)
+         (buf : list Z) : option (list Z) :=
+  match axes with
+  | [] => Some buf
+  | (t, mn, df, mx) :: rest =>
+      if (t =? tag) && (i <? length buf)%nat then
+        do c <- user_to_normalized1 mn df mx (map_for maps i) v ;;
+        apply_setting rest maps (S i) tag v (set_at i c buf)
+      else apply_setting rest maps (S i) tag v buf
+  end.
+Fixpoint apply_settings (axes : list axis_rec) (maps : option (list (list (Z * Z)))) (settings : list (Z * Z))
+         (buf : list Z) : option (list Z) :=
+  match settings with
+  | [] => Some buf
+  | (tag, v) :: rest => do b <- apply_setting axes maps O tag v buf ;; apply_settings axes maps rest b
+  end.
+Definition user_to_normalized (axes : list axis_rec) (maps : option (list (list (Z * Z)))) (settings : list (Z * Z))
+           (buf : list Z) : option (list Z) :=
+  apply_settings axes maps settings (repeat 0 (length buf)).
+
 (* ================= 2. tent scalar and delta evaluation ================= *)
 
 Definition region := list (Z * Z * Z).        (* per axis (start, peak, end), raw F2Dot14 *)
@@ -666,6 +700,8 @@ Inductive case : Type :=
 | CNorm (minv defv maxv v : Z) (out : list Z)                         (* [] = panic *)
 | CAvar (maps : list (Z * Z)) (coord : Z) (out : Z)
 | CU2N (minv defv maxv : Z) (maps : option (list (Z * Z))) (user : Z) (out : list Z)
+(* all axes, the caller's (dirty) output slice on entry, the slice on return; [-999] = panic *)
+| CU2NMulti (axes : list axis_rec) (maps : option (list (list (Z * Z)))) (settings : list (Z * Z)) (buf out : list Z)
 | CScalar (axes : region) (coords : list Z) (out : Z)
 | CDelta (s : store) (outer inner : Z) (coords : list Z) (out : list Z)   (* [v] Ok, [] Err *)
 | CRow (wdc rc : Z) (data : list Z) (inner : Z) (out : list Z)
@@ -723,6 +759,8 @@ Definition check_case (c : case) : bool :=
   | CNorm a d m v out => zl_eqb (opt_out (normalize a d m v)) out
   | CAvar maps coord out => avar_apply maps coord =? out
   | CU2N a d m maps u out => zl_eqb (opt_out (user_to_normalized1 a d m maps u)) out
+  | CU2NMulti axes maps settings buf out =>
+      zl_eqb (match user_to_normalized axes maps settings buf with Some r => r | None => [-999] end) out
   | CScalar axes coords out => compute_scalar axes coords =? out
   | CDelta s o i coords out =>
       match compute_delta s o i coords with
